@@ -3,7 +3,7 @@ from __future__ import annotations
 
 import ast
 
-from ..core import call_name, dotted, kwarg, norm
+from ..core import call_name, ctext, dotted, kwarg, norm
 from ..util import assigned_targets, flatten_boolop, parent_map
 
 EXPLANATION = """
@@ -119,7 +119,7 @@ def _d3(ctx):
     odef = [st for st in fi.stmts() for t, v, _ in assigned_targets(st) if isinstance(t, ast.Name) and t.id == "others"]
     ctx.require(len(odef) == 1, R, "`others` definition")
     ctx.check("\\bOther\\b" in norm(odef[0].value).replace("\\\\", "\\"), R, fi, odef[0], "keys mentioning Other are not found by a whole-word match", "whole-word match of Other in keys")
-    ifs = [n for n in cfg.nodes if n.kind == "if" and norm(n.ast.test) in ("len(others) > 1", "len(others) >= 2")]
+    ifs = [n for n in cfg.nodes if n.kind == "if" and norm(n.ast.test) in (ctext("len(others) > 1"), ctext("len(others) >= 2"))]
     ok = bool(ifs) and isinstance(ifs[0].ast.body[-1], ast.Raise) and "EvaluationError" in norm(ifs[0].ast.body[-1])
     ctx.check(ok, R, fi, ifs[0].ast.test if ifs else fi.node, "more than one Other key does not raise", "more than one Other => EvaluationError")
     # eval order
@@ -209,7 +209,7 @@ def _d4(ctx):
             ok = any(c.endswith("einsums_with_tensor_as_input(t)") and not c.startswith("not") for c in conj) and any(c.endswith("einsums_with_tensor_as_output(t)") and not c.startswith("not") for c in conj) and norm(comps[0].generators[0].iter) == "all_"
     ctx.check(ok, R, fi, inter if inter is not None else fi.node, "Intermediates is not {t in All : t is some Einsum's input AND some Einsum's output}", "Intermediates = input of some and output of some Einsum")
     sh = defs.get("shared")
-    ok = sh is not None and "> 1" in norm(sh) and "einsums_with_tensor_as_input(t)" in norm(sh) and "einsums_with_tensor_as_output(t)" in norm(sh)
+    ok = sh is not None and "1 < len(" in norm(sh) and "einsums_with_tensor_as_input(t)" in norm(sh) and "einsums_with_tensor_as_output(t)" in norm(sh)
     ctx.check(ok, R, fi, sh if sh is not None else fi.node, "Shared is not {t : used by more than one Einsum}", "Shared = used by > 1 Einsum")
     pe = defs.get("persistent")
     ok = pe is not None and "t.persistent" in norm(pe) and "self.tensor_accesses" in norm(pe)
